@@ -88,6 +88,32 @@ fn with_env(lam_cnt: usize, env: Env, term: Term<NamedDeBruijn>) -> Term<NamedDe
 
             Term::Force(force.into())
         }
+        Term::Constr { tag, fields } => {
+            let mut discharged = Vec::with_capacity(fields.len());
+
+            for i in 0..fields.len() {
+                discharged.push(with_env(lam_cnt, env.clone(), fields[i].clone()));
+            }
+
+            Term::Constr {
+                tag,
+                fields: discharged,
+            }
+        }
+        Term::Case { constr, branches } => {
+            let constr = with_env(lam_cnt, env.clone(), constr.as_ref().clone());
+
+            let mut discharged = Vec::with_capacity(branches.len());
+
+            for i in 0..branches.len() {
+                discharged.push(with_env(lam_cnt, env.clone(), branches[i].clone()));
+            }
+
+            Term::Case {
+                constr: constr.into(),
+                branches: discharged,
+            }
+        }
         rest => rest,
     }
 }
